@@ -37,3 +37,59 @@ def parse_times(m):
     except IndexError:
         got = None
     return {'violates': got != want, 'input': repr((spec_in, N, dt, t0)), 'observed': got, 'required': want}
+
+
+def _exact_pt(stored_dt=None):
+    """a process tensor of a trivial environment (identity MPO tensors): correlations are
+    then those of the closed system and can be computed directly"""
+    import oqupy
+    from oqupy.process_tensor import SimpleProcessTensor
+    n = 6
+    pt = SimpleProcessTensor(2, dt=stored_dt)
+    for k in range(n):
+        pt.set_mpo_tensor(k, np.ones((1, 1, 4)))
+    pt.compute_caps()
+    return pt, n
+
+
+def nt_alignment(inp):
+    """every list permutation / direction of the last axis: entry [n, m] must be the
+    correlation of exactly (times_a[n], times_b[m]), NaN iff t_b < t_a; and dt governs the dynamics"""
+    import oqupy
+    from scipy.linalg import expm
+    sx, sz = oqupy.operators.sigma('x'), oqupy.operators.sigma('z')
+    H = 0.7 * sx + 0.2 * sz
+    sys_ = oqupy.System(H)
+    rho0 = oqupy.operators.spin_dm('y+')
+    pt, n = _exact_pt()
+    dt = 0.2
+    A, B = sz, sx
+
+    def exact(ka, kb):
+        ua, ub = expm(-1j * H * dt * ka), expm(-1j * H * dt * (kb - ka))
+        r = A @ (ua @ rho0 @ ua.conj().T)
+        return np.trace(B @ (ub @ r @ ub.conj().T))
+    bad = []
+    try:
+        oqupy.compute_correlations(sys_, pt, A, B, 1, 2, initial_state=rho0, start_time=0.0, dt=dt, progress_type='silent')
+    except ValueError as e:
+        bad.append({'dt_argument': dt, 'process_tensor_dt': None, 'observed': 'ValueError: %s' % e,
+                    'required': 'the dt given by the caller governs the dynamics'})
+        pt, n = _exact_pt(stored_dt=dt)
+    for ta in ([1, 2], [3, 0, 2], 2):
+        for tb in ([4, 3, 2, 1], [1, 2, 3, 4], [0, 5, 2], slice(None, None, -1), (1.0, 0.2), (0.0, 1.0)):
+            times, corr = oqupy.compute_correlations(sys_, pt, A, B, ta, tb, time_order='ordered', initial_state=rho0,
+                                                     start_time=0.0, dt=dt, progress_type='silent')
+            sa = np.round(np.array(times[0]) / dt).astype(int)
+            sb = np.round(np.array(times[1]) / dt).astype(int)
+            for i, ka in enumerate(sa):
+                for j, kb in enumerate(sb):
+                    got = corr[i, j]
+                    if kb < ka:
+                        ok = np.isnan(got)
+                    else:
+                        ok = (not np.isnan(got)) and abs(got - exact(ka, kb)) < 1e-8
+                    if not ok:
+                        bad.append({'times_a': str(ta), 'times_b': str(tb), 'entry': [i, j], 'steps': [int(ka), int(kb)],
+                                    'observed': str(got), 'required': 'NaN' if kb < ka else str(exact(ka, kb))})
+    return {'violates': bool(bad), 'detail': bad[:3], 'n_bad_entries': len(bad)}
